@@ -350,6 +350,41 @@ func c06Run(c *fw.Ctx, i int) {
 	// random
 	r := c.R
 	randDay := func() int64 { return ref.DayNumber(1, 1, 1) + int64(r.Intn(3652059)) }
+	// first of all, ranges nobody has looked at yet are compared by 8
+	// goroutines at once (the same DATE node objects in all of them): every
+	// answer must be what a lone caller gets from fresh nodes
+	{
+		var texts []string
+		var nodes []*gedcom.DateNode
+		for k := 0; k < 200; k++ {
+			x, y := randDay(), randDay()
+			if k%2 == 1 {
+				y = x + int64(r.Range(-400, 400))
+			}
+			if y < ref.DayNumber(1, 1, 1) || y > ref.DayNumber(9999, 12, 31) {
+				y = x
+			}
+			if x > y {
+				x, y = y, x
+			}
+			y1, m1, d1 := ref.Civil(x)
+			y2, m2, d2 := ref.Civil(y)
+			t := c06Range{y1, m1, d1, y2, m2, d2, r.Intn(4)}.String()
+			texts = append(texts, t)
+			nodes = append(nodes, gedcom.NewDateNode(t))
+		}
+		cmp := func(a, b *gedcom.DateNode) string {
+			x, y := a.DateRange(), b.DateRange()
+			return c06Name(x.Compare(y)) + "/" + c06Name(y.Compare(x))
+		}
+		c.Count("parallel-evaluations", int64(8*len(texts)))
+		n := len(texts)
+		if k, par, alone := fw.ParallelThenAlone(8, n, func(k int) string { return cmp(nodes[k], nodes[(k*7+1)%n]) }, func(k int) string {
+			return cmp(gedcom.NewDateNode(texts[k]), gedcom.NewDateNode(texts[(k*7+1)%n]))
+		}); k >= 0 {
+			c.Violation("parallel-evaluation-differs", fmt.Sprintf("(%s).Compare(%s) and its converse asked while 7 other goroutines compare too: %s, alone: %s", texts[k], texts[(k*7+1)%n], par, alone), []string{texts[k], texts[(k*7+1)%n]})
+		}
+	}
 	mk := func(x, y int64) c06Range {
 		if x > y {
 			x, y = y, x
